@@ -90,10 +90,10 @@ def install_merge_contract() -> None:
     if getattr(_utils.merge_config, "__verif_contract__", False):
         return
     orig = _utils.merge_config
-    wrapped = icontract.snapshot(_snap_original, name="orig")(
-        icontract.snapshot(_snap_overrides, name="over")(
-            icontract.snapshot(_snap_model, name="model")(
-                icontract.ensure(merge_post, error=MergeBroken)(orig)
+    wrapped = icontract.snapshot(_snap_original, name="orig", enabled=True)(
+        icontract.snapshot(_snap_overrides, name="over", enabled=True)(
+            icontract.snapshot(_snap_model, name="model", enabled=True)(
+                icontract.ensure(merge_post, error=MergeBroken, enabled=True)(orig)
             )
         )
     )
@@ -139,6 +139,6 @@ def install_channel_contract() -> None:
     cur = _event.Signal.__dict__["__get__"]
     if getattr(cur, "__verif_contract__", False):
         return
-    wrapped = icontract.ensure(channel_post, error=ChannelBroken)(cur)
+    wrapped = icontract.ensure(channel_post, error=ChannelBroken, enabled=True)(cur)
     wrapped.__verif_contract__ = True  # type: ignore[attr-defined]
     _event.Signal.__get__ = wrapped  # type: ignore[method-assign]
